@@ -236,7 +236,13 @@ func (c *Contracts) parseFile(pkgPath, file string) error {
 			if !ok {
 				return fmt.Errorf("%s: bad monitor %q", d.src, rest)
 			}
-			curM = &Monitor{Pkg: pkgPath, Type: tn, Mutex: strings.TrimSpace(fn), Src: d.src}
+			mname := strings.TrimSpace(fn)
+			ptr := false
+			if strings.HasSuffix(mname, " ptr") {
+				ptr = true
+				mname = strings.TrimSpace(strings.TrimSuffix(mname, " ptr"))
+			}
+			curM = &Monitor{Pkg: pkgPath, Type: tn, Mutex: mname, Src: d.src, PtrMtx: ptr}
 			c.Monitors = append(c.Monitors, curM)
 		case "typeinv":
 			curF, curM, curL = nil, nil, nil
